@@ -9,6 +9,7 @@ from .world import ChunkSchedule, World, run_tool
 
 IN_PATH = "/simfs/in.img"
 VCWD_OF_PROCESS = None     # set by the C12 worker: the working directory its process was given
+TTY_OF_PROCESS = False     # set by the C12 worker: are the standard streams terminals?
 OUT_PATH = "/simfs/out.img"
 OUT_PNG = "/simfs/out.png"
 
@@ -27,8 +28,15 @@ NAME_STYLES = (("/simfs/in.img", "/simfs/out"), ("/simfs/my dir/in file.img", "/
                ("/simfs/" + "\u00e9" * 123 + "n.img", "/simfs/" + "\u00e9" * 124),
                # shell metacharacters that are ordinary characters in a file name; a sibling file
                # that a wildcard expansion of the name would match sits next to it
-               ("/simfs/g/pic[1]?*.img", "/simfs/g/out[1]"))
+               ("/simfs/g/pic[1]?*.img", "/simfs/g/out[1]"),
+               # the input name is a symbolic link to the file
+               ("/simfs/ln/in.img", "/simfs/ln/out"),
+               # extensions of other formats and of none (the options say what the file is)
+               ("/simfs/x/drawing.art", "/simfs/x/picture"), ("/simfs/x/PIC.MAX", "/simfs/x/scan.hrs"),
+               ("/simfs/x/noext", "/simfs/x/out.vef"))
 SIBLINGS = {7: ("/simfs/g/pic1xy.img",)}
+SYMLINK_STYLE = 8
+SYMLINK_TARGET = "store/data.bin"           # relative to the link's directory
 
 
 def paths_for(tool, style):
@@ -244,10 +252,14 @@ def simulate(tool, opts, data: bytes, env: Env, damaged=(), boundaries=(), budge
         redirect = (_r0.Random(env.in_seed).randbytes(k) + bytes(data), k)
     w = World(stdin_data=data if use_stdin else None, stdin_file=redirect, stdin_sched=sin, stdout_sched=sout,
               stdin_damaged=damaged if use_stdin else (), vcwd=VCWD_OF_PROCESS,
-              stdout_unbuffered=env.unbuf, environ=env_vars(env.envseed))
+              stdout_unbuffered=env.unbuf, environ=env_vars(env.envseed),
+              tty=TTY_OF_PROCESS or bool(env.envseed and env.envseed % 5 == 0))
     with w:
         if env.in_kind == "fifo":
             w.fs.fifos[w._vpath(inp, writing=True)] = (bytes(data), sin, list(damaged))
+        elif not use_stdin and env.names % len(NAME_STYLES) == SYMLINK_STYLE and not env.inplace:
+            w.fs.symlinks[inp] = SYMLINK_TARGET
+            w.fs.put(w._vpath(inp), data, damaged)
         elif not use_stdin:
             w.fs.put(w._vpath(inp, writing=True), data, damaged)
         for sib in SIBLINGS.get(env.names % len(NAME_STYLES), ()):
